@@ -72,6 +72,23 @@ mod imp {
 
 pub use imp::*;
 
+/// Native grid stand-ins: record the case about to be executed / the number of cases executed.
+pub fn grid_case(_desc: std::fmt::Arguments<'_>) {
+    #[cfg(all(not(kani), verif_replay))]
+    {
+        use std::io::Write;
+        // keep only the last case visible near a panic: print every case, the driver reads the last one
+        let _ = writeln!(std::io::stderr(), "VERIF-GRID-CASE: {}", _desc);
+    }
+}
+pub fn grid_done(_name: &str, _cases: u64) {
+    #[cfg(all(not(kani), verif_replay))]
+    eprintln!("VERIF-GRID-DONE {} cases={}", _name, _cases);
+}
+/// Boundary grids for integer payloads.
+pub const GRID_I64: [i64; 9] = [i64::MIN, i64::MIN + 1, -2, -1, 0, 1, 2, i64::MAX - 1, i64::MAX];
+pub const GRID_U64: [u64; 8] = [0, 1, 2, i64::MAX as u64 - 1, i64::MAX as u64, i64::MAX as u64 + 1, u64::MAX - 1, u64::MAX];
+
 /// `cover!(cond, "label")`: a reachability witness behind an assumption / inside a match arm.
 /// Under Kani it is a cover property (the driver requires SATISFIED); natively it is a no-op.
 #[macro_export]
